@@ -64,7 +64,7 @@ def fam_moving_average(cu):
                 r = cu.moving_average_update(old, new); H = cx.hyps()
                 ok = (isinstance(r, dict) and set(r) == {'min', 'max'} and r is not old and r is not new and old.keys() == ko.keys() and new.keys() == kn.keys()
                       and all(old[k] is ko[k] for k in ko) and all(new[k] is kn[k] for k in kn) and all(isinstance(r[k], SymArray) and r[k].shape == shape and r[k].dtype == F32 for k in r) and not cx.side)
-                goals.append(G(f'{tag}.nonempty-old: fresh dict with keys exactly min,max; arguments not written; shape and dtype kept', Fm, ok=bool(ok), backend='cpython-exec', inputs=dict(inp, shape=shape),
+                goals.append(G(f'{tag}.nonempty-old: fresh {{min,max}} dict; arguments not written; shape/dtype kept', Fm, ok=bool(ok), backend='cpython-exec', inputs=dict(inp, shape=shape),
                                observed=str({k: (getattr(v, 'shape', None), str(getattr(v, 'dtype', None))) for k, v in r.items()}) if isinstance(r, dict) else repr(r),
                                clause=f'result is a new dict (is not old, is not new), keys == {{min,max}}, values float32 of shape {shape}, old/new dicts keep their entries'))
                 if shape == STAT_SHAPES[1]:
@@ -180,7 +180,7 @@ def fam_registry(M):
     for alg, info in am._alg_manager_instance._algorithm_registry.items():
         for op, q in info.quantized_ops.items(): rows.append((str(getattr(alg, 'value', alg)), str(getattr(op, 'value', op)), q.calibration_func, q.init_qsv_func))
     bad = [(a, o, getattr(c, '__name__', repr(c))) for a, o, c, i in rows if not ((c is nmm.min_max_calibrate and i is nmm.init_qsvs) or (c is fcm.calibrate and i is fcm.init_qsvs))]
-    goals.append(G('every-registered-op-calibrates-with-min_max_calibrate-or-the-statistics-free-float_casting.calibrate', 'naive_min_max_quantize.min_max_calibrate', ok=(not bad and len(rows) > 0), backend='exhaustive-native', inputs=dict(family='registry'),
+    goals.append(G('every-registered-op-uses-min_max_calibrate-or-float_casting.calibrate', 'naive_min_max_quantize.min_max_calibrate', ok=(not bad and len(rows) > 0), backend='exhaustive-native', inputs=dict(family='registry'),
                    observed=dict(rows=len(rows), other=bad[:5]), clause='for every (algorithm, op) of the real registry: (calibration_func, init_qsv_func) is (min_max_calibrate, init_qsvs) unwrapped (no ignore lists bound) or float_casting (calibrate, init_qsvs)'))
     o = object(); r1 = fcm.calibrate(o, o, o); r2 = fcm.init_qsvs(o, o)
     goals.append(G('float_casting.calibrate-and-init_qsvs-record-nothing', 'naive_min_max_quantize.min_max_calibrate', ok=(r1 == {} and r2 == {}), backend='cpython-exec', inputs=dict(family='registry'), observed=(repr(r1), repr(r2)),
